@@ -528,6 +528,10 @@ def parseOp (op : String) (args : List String) : Option Op :=
   let ia := ints? args
   match op, args, ia with
   | "text_at", [l, c, h], _ => do pure (.textAt (← int? l) (← int? c) (← hexBytes? h))
+  -- (`textf_at`/`textf` with "%s": kept here for the drivers of C04/C13, which reuse this parser; this engine's own
+  --  `step` sends the formatted entry points through `parseFmt` and the `put_vtextf` model first)
+  | "textf_at", [l, c, h], _ => do pure (.textAt (← int? l) (← int? c) ((← hexBytes? h).takeWhile (· ≠ 0)))   -- "%s" stops at NUL
+  | "textf", [h], _ => do pure (.text ((← hexBytes? h).takeWhile (· ≠ 0)))
   | "textz_at", [l, c, h], _ => do pure (.textAt (← int? l) (← int? c) ((← hexBytes? h).takeWhile (· ≠ 0)))   -- strlen
   | "textn_at", [l, c, n, h], _ => do pure (.textAt (← int? l) (← int? c) (← textnBytes (← int? n) (← hexBytes? h)))
   | "text", [h], _ => do pure (.text (← hexBytes? h))
